@@ -35,6 +35,8 @@ func init() {
 		Run: func(c *Ctx) {
 			B := decodeBound(c.P)
 			B.obligations(c, boundOpts{prop: "C04", onlyTainted: true, progress: true, alloc: true, contracts: true})
+			ruleNilDeref(c, B.funcs, "decode closure")
+			ruleGrowth(c)
 			c.Floor("B.slice", 60)
 			c.Floor("B.contract", 40)
 			c.Floor("B.progress", 15)
